@@ -49,10 +49,13 @@ func updaterFunc(u *m.Updater, res *Result) func(*document.Document) *document.D
 			return nil
 		}
 		target := doc
-		if u.Style != "inplace" {
+		if u.Style != "inplace" && u.Style != "inplace-elems" {
 			target = doc.Copy()
 		}
 		for _, k := range m.SortedKeys(u.Set) {
+			if u.Style == "inplace-elems" && mutateInPlace(target.Get(k), u.Set[k]) {
+				continue // the slice / object the document already holds was rewritten element by element
+			}
 			target.Set(k, m.Clone(u.Set[k]))
 		}
 		if u.BadFor != "" && doc.ObjectId() == u.BadFor {
@@ -60,6 +63,37 @@ func updaterFunc(u *m.Updater, res *Result) func(*document.Document) *document.D
 		}
 		return target
 	}
+}
+
+// mutateInPlace rewrites the elements of a slice (of the same length) or the entries of an object that the received
+// document already holds, the way a caller does with doc.Get(f).([]interface{})[i] = v; false = shapes differ.
+func mutateInPlace(cur, nv interface{}) bool {
+	switch c := cur.(type) {
+	case []interface{}:
+		n, ok := nv.([]interface{})
+		if !ok || len(n) != len(c) {
+			return false
+		}
+		for i := range c {
+			if !mutateInPlace(c[i], n[i]) {
+				c[i] = m.Clone(n[i])
+			}
+		}
+		return true
+	case map[string]interface{}:
+		n, ok := nv.(map[string]interface{})
+		if !ok {
+			return false
+		}
+		for k := range c {
+			delete(c, k)
+		}
+		for k, v := range n {
+			c[k] = m.Clone(v)
+		}
+		return true
+	}
+	return false
 }
 
 // ---- hang monitor: every operation in flight is registered, so that a call that never returns is reported
